@@ -114,6 +114,8 @@ def parseObs (line : String) : Option Obs :=
   | "C" :: g :: cid :: api :: a =>
     if api == "release" then (match a with | [k] => some (.release (natOf k)) | _ => none)
     else if api == "releaseall" then some .releaseAll
+    else if api == "rest" then some .rest
+    else if api == "ackopen" then none
     else some (.call (natOf g) (natOf cid) (parseCall api a))
   | "R" :: g :: cid :: api :: a => some (.ret (natOf g) (natOf cid) (parseCall api []) (parseRet api a))
   | "W" :: g :: "enter" :: k :: id :: _ => some (.enter (natOf g) (natOf k) id)
@@ -162,6 +164,7 @@ def parseParams (js : String) : Params :=
     expiry := jsonField js "expiry" != "",
     errs := jsonField js "errs" == "true",
     noIdBatch := jsonField js "noidbatch" == "true",
+    ackHold := jsonField js "ackhold" == "true",
     ctx := jsonField js "ctx" == "true",
     outcomes := parseNatList (jsonArrayField js "outcomes"),
     queues := (let a := jsonArrayField js "queues"; let inner := ((a.drop 1).dropEnd 1).toString
